@@ -870,7 +870,7 @@ func Run(c *hx.Ctx) {
 	c.Note(fmt.Sprintf("observation (not a violation): verifyToken accepts a delegation at now = expireTime (results at expire-1, expire, expire (after re-delegation with period 0), expire+1: %v) while getAuthToken treats it as ended at that second (a second delegation of the same role to the same identity was accepted at now = expire: %v); Model/Auth.v follows the code, Props/C41.v c41_boundary_now_equals_expire states it", vr, r.stats["delegate:RTrue"] == 2))
 	c.Note("admin-assigned ('permanent') tokens expire at 2100-01-01 12:00 UTC (uint32 4102488000): verifyToken refuses them afterwards; histories with times after that instant are generated and the theorem carries the bound")
 
-	nh := c.N(170, 1700)
+	nh := c.N(120, 1500)
 	for i := 0; i < nh; i++ {
 		stub := i%4 == 3
 		h := r.genHistory(stub)
